@@ -26,6 +26,10 @@ def _task(name):
     return _app().get_task(TaskId(__name__, name))
 
 
+def _plus(r, n):
+    return None if r is None else r + n
+
+
 def _impl(spec):
     from pynenc.exceptions import RetryError
     nid = spec["id"]
@@ -43,6 +47,14 @@ def _impl(spec):
             t = _task(kids[0]["fn"])
             params = [{"spec": c, **({"bonus": c["bonus"]} if c.get("bonus") else {})} for c in kids]
             total += sum(t.parallelize(params, common_args={"extra": spec.get("extra", 0)}).results)
+        elif how == "reread":
+            # the caller reads every result twice (and a child may return None): reading is not executing
+            invs = [_task(c["fn"])(c) for c in kids]
+            for i in invs:
+                first, second = i.result, i.result
+                if first != second:
+                    raise AssertionError(f"two reads of one result differ: {first!r} / {second!r}")
+                total += first or 0
         elif how == "direct":
             app = _app()
             for c in kids:
@@ -53,55 +65,55 @@ def _impl(spec):
                 total += i.result
     action = spec["script"][min(attempt - 1, len(spec["script"]) - 1)]
     if action == "return":
-        return total
+        return None if spec.get("ret_none") else total
     if action == "RetryError":
         raise RetryError(f"node {nid} attempt {attempt}")
     raise EXC[action](f"node {nid}", attempt)
 
 
 def p_r0(spec, bonus=0, extra=0):
-    return _impl(spec) + bonus + extra
+    return _plus(_impl(spec), bonus + extra)
 
 
 def p_r1(spec, bonus=0, extra=0):
-    return _impl(spec) + bonus + extra
+    return _plus(_impl(spec), bonus + extra)
 
 
 def p_r2(spec, bonus=0, extra=0):
-    return _impl(spec) + bonus + extra
+    return _plus(_impl(spec), bonus + extra)
 
 
 def p_r3(spec, bonus=0, extra=0):
-    return _impl(spec) + bonus + extra
+    return _plus(_impl(spec), bonus + extra)
 
 
 def p_r1_v(spec, bonus=0, extra=0):
-    return _impl(spec) + bonus + extra
+    return _plus(_impl(spec), bonus + extra)
 
 
 def p_r2_v(spec, bonus=0, extra=0):
-    return _impl(spec) + bonus + extra
+    return _plus(_impl(spec), bonus + extra)
 
 
 def p_r2_kv(spec, bonus=0, extra=0):
-    return _impl(spec) + bonus + extra
+    return _plus(_impl(spec), bonus + extra)
 
 
 def p_r0_v(spec, bonus=0, extra=0):
-    return _impl(spec) + bonus + extra
+    return _plus(_impl(spec), bonus + extra)
 
 
 # direct-task flavour: separate functions (a function can carry one task per app)
 def d_p_r0(spec, bonus=0, extra=0):
-    return _impl(spec) + bonus + extra
+    return _plus(_impl(spec), bonus + extra)
 
 
 def d_p_r1(spec, bonus=0, extra=0):
-    return _impl(spec) + bonus + extra
+    return _plus(_impl(spec), bonus + extra)
 
 
 def d_p_r2_v(spec, bonus=0, extra=0):
-    return _impl(spec) + bonus + extra
+    return _plus(_impl(spec), bonus + extra)
 
 
 DIRECT_VARIANTS = {"d_p_r0": "p_r0", "d_p_r1": "p_r1", "d_p_r2_v": "p_r2_v"}
@@ -149,12 +161,12 @@ def model_run(spec, counts):
         try:
             total = spec["v"]
             for c in spec.get("children", []):
-                total += model_run(c, counts)
+                total += model_run(c, counts) or 0
                 if spec.get("call") == "cgroup":
                     total += c.get("bonus", 0) + spec.get("extra", 0)
             action = spec["script"][min(attempt - 1, len(spec["script"]) - 1)]
             if action == "return":
-                return total
+                return None if spec.get("ret_none") else total
             raise ModelFail(action, (f"node {spec['id']} attempt {attempt}",) if action == "RetryError" else (f"node {spec['id']}", attempt))
         except ModelFail as e:
             if e.etype in retriable and tries <= max_retries:
